@@ -9,7 +9,8 @@ Wrap/Protocol.v - and (b) through the REAL wrap_* of line_profiler.LineProfiler 
 kernprof.ContextualProfile; the observations are compared inside Coq with the wrapper
 model (mismatch) and with the unwrapped run (spec_fail = the property).  Descriptors,
 metadata, registration and profiler nesting are checked differentially on generated real
-objects (harness/drivers/c03_objects.py)."""
+objects (harness/drivers/c03_objects.py); decorated callables under the real kernprof.main with its
+interval timer (kernprof -i) by harness/drivers/c03_kern.py."""
 import itertools
 import json
 
